@@ -116,7 +116,7 @@ func stripDir(v any, dir string) any {
 func C18(r *drv.Run) {
 	r.BuildWorker()
 	r.BuildCLI()
-	r.Rule = "the built vore binary in scratch directories over the cross product {-com, -src} x 6 file sets (one file, several by glob, none matching, a glob with the star in the middle of a name, a glob into a sub-directory, a wildcard directory segment that selects a symbolic link to a directory) x {none, -json, -formatted-json} x {-json-file} x {-formatted-json-file} x {default, NEW, NOTHING, OVERWRITE} x {-no-output} x {find, replace, two statements, failing program, literals with escapes} (thorough: all 5 760; quick: a seed-selected 600) plus 14 invalid invocations and 19 unknown mode names (other letter cases, near misses, the engine's internal fourth mode CONFIRM, numbers, lists) each with a find and a replace program; a fifth of the -src invocations with the program arriving through a named pipe, a third of the invocations with longer JSON output files left over from an earlier run, a quarter with the -files pattern made absolute, an eighth started from the root directory with a relative pattern leading into the scratch directory, two thirds with their flag groups in a seed-chosen order and spelling (-flag value, --flag value, -flag=value). Oracle: exit status; stdout under -json/-formatted-json is exactly one JSON document equal (after decoding) to the library's result for the same program and files, computed by a worker through RunFiles; the named JSON files likewise; replace mode honoured with NEW as default and outputs equal to the splice (directory snapshot before/after); invalid invocations, unknown modes and compile errors exit non-zero with a message and an empty snapshot diff. Non-trivial = invocation with >= 1 match whose JSON/stdout/file effects were all verified; distinct by configuration."
+	r.Rule = "the built vore binary in scratch directories over the cross product {-com, -src} x 6 file sets (one file, several by glob, none matching, a glob with the star in the middle of a name, a glob into a sub-directory, a wildcard directory segment that selects a symbolic link to a directory) x {none, -json, -formatted-json} x {-json-file} x {-formatted-json-file} x {default, NEW, NOTHING, OVERWRITE} x {-no-output} x {find, replace, two statements, failing program, literals with escapes} (thorough: all 5 760; quick: a seed-selected 600) plus 14 invalid invocations and 19 unknown mode names (other letter cases, near misses, the engine's internal fourth mode CONFIRM, numbers, lists) each with a find and a replace program; a fifth of the -src invocations with the program arriving through a named pipe, a third of the invocations with longer JSON output files left over from an earlier run, a quarter with the -files pattern made absolute, a sixth in a hostile environment (TMPDIR naming a missing directory, HOME missing, an unknown locale, PWD lying), an eighth started from the root directory with a relative pattern leading into the scratch directory, two thirds with their flag groups in a seed-chosen order and spelling (-flag value, --flag value, -flag=value). Oracle: exit status; stdout under -json/-formatted-json is exactly one JSON document equal (after decoding) to the library's result for the same program and files, computed by a worker through RunFiles; the named JSON files likewise; replace mode honoured with NEW as default and outputs equal to the splice (directory snapshot before/after); invalid invocations, unknown modes and compile errors exit non-zero with a message and an empty snapshot diff. Non-trivial = invocation with >= 1 match whose JSON/stdout/file effects were all verified; distinct by configuration."
 	r.Assumptions = []string{
 		"with -no-output only exit status and file effects of the replace mode are demanded (the documentation does not say whether JSON files are still written)",
 		"zero matches / no files: exit 0 and no JSON demanded (the property's 'when there is at least one match')",
@@ -224,8 +224,25 @@ func C18(r *drv.Run) {
 }
 
 func runCLI(bin, dir string, args []string) (code int, stdout, stderr string) {
+	return runCLIEnv(bin, dir, args, nil)
+}
+
+// runCLIEnv: env entries replace those of the same name in the harness's environment
+func runCLIEnv(bin, dir string, args []string, env []string) (code int, stdout, stderr string) {
 	cmd := exec.Command(bin, args...)
 	cmd.Dir = dir
+	if env != nil {
+		over := map[string]bool{}
+		for _, e := range env {
+			over[strings.SplitN(e, "=", 2)[0]] = true
+		}
+		for _, e := range os.Environ() {
+			if !over[strings.SplitN(e, "=", 2)[0]] {
+				cmd.Env = append(cmd.Env, e)
+			}
+		}
+		cmd.Env = append(cmd.Env, env...)
+	}
 	var so, se bytes.Buffer
 	cmd.Stdout, cmd.Stderr = &so, &se
 	err := cmd.Run()
@@ -346,7 +363,14 @@ func c18Run(r *drv.Run, i int, cfg c18Config, lib []wire.Match, libStr [][]wire.
 		r.Count("invocations_with_shuffled_respelled_arguments", 1)
 	}
 	before := fsmon.Take(dir)
-	code, stdout, stderr := runCLI(r.CLIBin, cwd, args)
+	// a sixth of the invocations in a hostile ENVIRONMENT: no usable temporary directory, no home, an unknown locale, a
+	// terminal type and colour wishes - none of which a search has any business with
+	var env []string
+	if i%6 == 2 {
+		env = []string{"TMPDIR=" + filepath.Join(dir, "no-such-directory"), "HOME=/nonexistent-home", "LANG=xx_XX.UTF-8", "LC_ALL=xx_XX", "TERM=dumb", "NO_COLOR=1", "GOMAXPROCS=1", "PWD=/somewhere/else"}
+		r.Count("invocations_in_a_hostile_environment", 1)
+	}
+	code, stdout, stderr := runCLIEnv(r.CLIBin, cwd, args, env)
 	after := fsmon.Take(dir)
 	diff := fsmon.Diff(before, after)
 	r.Eval(1)
